@@ -58,10 +58,18 @@ def asbuilt():
     return "\n\n".join(out)
 
 
+def tiemap():
+    f = os.path.join(V, 'design-notes', 'tie_map.md')
+    if not os.path.exists(f):
+        return "(run tools/tie_map.py)"
+    t = open(f).read()
+    return t[t.index('\n') + 1:].strip().replace('\n## ', '\n#### ')
+
+
 def main():
     p = os.path.join(V, 'DESIGN.md')
     s = open(p).read()
-    for name, fn in (('FINDINGS', findings), ('SEEDS', seeds), ('STATUS', status), ('ASBUILT', asbuilt)):
+    for name, fn in (('FINDINGS', findings), ('SEEDS', seeds), ('STATUS', status), ('ASBUILT', asbuilt), ('TIEMAP', tiemap)):
         b, e = "<!-- BEGIN %s -->" % name, "<!-- END %s -->" % name
         if b in s and e in s:
             s = s[:s.index(b) + len(b)] + "\n" + fn() + "\n" + s[s.index(e):]
